@@ -78,6 +78,38 @@ def make_case(rng, idx, sub):
     raise lib.CheckBroken("could not generate a %s package with two generating types" % sub)
 
 
+def corpus_cases(start):
+    """fixed cases that exercise features the random stream reaches only sometimes"""
+    res = []
+    # a renamed import that only the second source needs: MergeSources must carry it over (goimports cannot guess it)
+    fa = histgen.HFile("a.go", [histgen.Struct("Abc", [histgen.SField("x", "int")])])
+    d = histgen.SField("d", "time.Duration")
+    d.goty = "tm.Duration"
+    fb = histgen.HFile("b.go", [histgen.Struct("Bcd", [d, histgen.SField("n", "string")])], imports=[("tm", "time")])
+    spec = histgen.Pkg("new", "p", [fa, fb], ["-getset"])
+    aio, sep = spec.cmd_star(), spec.cmd_star(sep=True)
+    for c in (aio, sep):
+        fa.gen.append("//go:generate go run github.com/lopolopen/shoot/cmd/shoot " + " ".join(c.argv()))
+    sel = ["Abc", "Bcd"]
+    res.append(Case(start, spec, aio, sep, sel, [spec.cmd_types(sel), spec.cmd_types(list(reversed(sel)))]))
+    # two pointer-embedded structs on each side of a mapper pair: the allocation lists are sorted after a map iteration
+    S, E = histgen.Struct, histgen.Embed
+    F = histgen.SField
+    src = histgen.HFile("model.go", [
+        S("Inner", [F("Deep", "string")]), S("Extra", [F("Tail", "string")]), S("Third", [F("Yonder", "int")]),
+        S("Order", [E("Inner", ptr=True), E("Extra", ptr=True), E("Third", ptr=True), F("Id", "int"), F("Pole", "string"), F("Mast", "string")]),
+        S("Bill", [E("Extra", ptr=True), E("Inner", ptr=True), F("Id", "int")])])
+    dest = histgen.HFile("dest.go", [
+        S("Dinner", [F("Pole", "string")]), S("Dextra", [F("Mast", "string")]),
+        S("Order", [E("Dinner", ptr=True), E("Dextra", ptr=True), F("Id", "int"), F("Deep", "string"), F("Tail", "string"), F("Yonder", "int")]),
+        S("Bill", [F("Id", "int"), F("Deep", "string"), F("Tail", "string")])])
+    ms = histgen.Pkg("map", "src", [src], [], dest=[dest], destname="dest")
+    sel = ["Order", "Bill"]
+    aio, sep = ms.cmd_file("model.go"), ms.cmd_file("model.go", sep=True)
+    res.append(Case(start + 1, ms, aio, sep, sel, [ms.cmd_types(sel), ms.cmd_types(list(reversed(sel)))]))
+    return res
+
+
 def execute_case(run, shoot, case):
     """all invocations of a case; fills case.obs with {mode: [run dicts]}"""
     spec = case.spec
@@ -220,7 +252,23 @@ def handlers(run, shoot):
         txt = (a.pkgdir / w["file"]).read_text()
         n = txt.count("/*noop*/\n\nfunc init()")
         return "buggy" if n > 0 else "correct"
-    return {"K_embed_order": embed_order, "K_hasnew_leak": hasnew, "K_getsetmethods_leak": gsm,
+    def case_clash(entry):
+        w = entry["witness"]
+        a, b = _site(run, "cc_a", w["files"]), _site(run, "cc_b", w["files"])
+        ra, rb = sh(a, w["args_a"]), sh(b, w["args_b"])
+        if ra["rc"] != 0 and rb["rc"] != 0:
+            return "correct"            # rejected with a diagnostic
+        if ra["rc"] != 0 or rb["rc"] != 0:
+            return "other: exit %s / %s" % (ra["rc"], rb["rc"])
+        fa = sorted(p.name for p in a.pkgdir.iterdir() if ".shootnew" in p.name)
+        fb = sorted(p.name for p in b.pkgdir.iterdir() if ".shootnew" in p.name)
+        ta = {n: (a.pkgdir / n).read_text().split("\n", 1)[1] for n in fa}
+        tb = {n: (b.pkgdir / n).read_text().split("\n", 1)[1] for n in fb}
+        if ta == tb and len(fa) == 2:
+            return "correct"
+        return "buggy" if fa == fb == [w["file"]] and ta != tb else "other: files %s / %s" % (fa, fb)
+
+    return {"K_filename_case_clash": case_clash, "K_embed_order": embed_order, "K_hasnew_leak": hasnew, "K_getsetmethods_leak": gsm,
             "K_map_state_leak": mapleak, "K_merge_stray_comment": stray}
 
 
@@ -233,7 +281,7 @@ MAP_DEST = ("package dest\n\ntype Order2 struct {\n\tid string\n\tamount int\n}\
 
 # ------------------------------------------------------------------ main
 PLAN_QUICK = {"new": 12, "enum": 5, "rest": 5, "map": 6}
-PLAN_THOROUGH = {"new": 200, "enum": 60, "rest": 60, "map": 100}
+PLAN_THOROUGH = {"new": 120, "enum": 40, "rest": 40, "map": 60}
 
 
 def nontrivial(case):
@@ -257,6 +305,7 @@ def main(run):
     for sub in ("new", "enum", "rest", "map"):
         for _ in range(plan[sub]):
             cases.append(make_case(run.rng, len(cases), sub))
+    cases += corpus_cases(len(cases))
     run.log("cases:", len(cases))
     histlib.pmap(lambda c: execute_case(run, shoot, c), cases)
     run.log("shoot runs done:", sum(len(rs) for c in cases for rs in c.obs.values()))
